@@ -57,6 +57,10 @@ ProcStartOn(w) ==
     /\ used' = IF w \in brk THEN used \cup {w} ELSE used
     /\ UNCHANGED <<lst, brk>>
 
+\* the operator tells the dispatcher to use the instance (management API "run"): one more start may
+\* follow before the next probe drains it again
+OperatorRun(w) == used' = used \ {w} /\ UNCHANGED <<lst, brk>>
+
 \* the dispatcher is replaced: the new one learns "broken" from its own first probe
 Restarted == used' = {} /\ UNCHANGED <<lst, brk>>
 
